@@ -1,7 +1,172 @@
-(* C05 proofs *)
-From Coq Require Import ZArith QArith List Bool Arith Lia.
-From QE Require Import Base.Num C05.Model C05.PureNash.
+(* C05 proofs, part 1: Nash equilibria of bimatrix games over Q (function form), complementarity =>
+   equilibrium, invariance under adding constants, bit-mask lemma of vertex enumeration. *)
+From Coq Require Import ZArith NArith QArith List Bool Arith Lia Lqa Setoid.
+From QE Require Import Base.Num Base.LinAlg.
 Import ListNotations.
+Local Open Scope Q_scope.
 
-Lemma iter_nat_0 {S R} (step : S -> S + R) s : iter_nat step 0 s = inl s.
-Proof. reflexivity. Qed.
+Lemma sumQ_le k f g : (forall l, (l < k)%nat -> f l <= g l) -> sumQ k f <= sumQ k g.
+Proof.
+  induction k; intros H; simpl; [lra|].
+  assert (sumQ k f <= sumQ k g) by (apply IHk; intros; apply H; lia).
+  assert (f k <= g k) by (apply H; lia). lra.
+Qed.
+
+(* ------------------------------------------------------------------ Nash equilibrium, function form *)
+Section Nash.
+Variables m n : nat.
+
+(* A i j, B i j : payoffs of player 0 / player 1 when 0 plays i < m and 1 plays j < n *)
+Definition row_payoff (A : nat -> nat -> Q) (y : nat -> Q) (i : nat) : Q := sumQ n (fun j => A i j * y j).
+Definition col_payoff (B : nat -> nat -> Q) (x : nat -> Q) (j : nat) : Q := sumQ m (fun i => x i * B i j).
+Definition prob (k : nat) (x : nat -> Q) : Prop := (forall i, (i < k)%nat -> 0 <= x i) /\ sumQ k x == 1.
+
+(* (x, y) is a pair of probability vectors and no pure action earns more than the mixed action played *)
+Definition is_nash_fn (A B : nat -> nat -> Q) (x y : nat -> Q) : Prop :=
+  prob m x /\ prob n y /\
+  (forall i, (i < m)%nat -> row_payoff A y i <= sumQ m (fun i' => x i' * row_payoff A y i')) /\
+  (forall j, (j < n)%nat -> col_payoff B x j <= sumQ n (fun j' => col_payoff B x j' * y j')).
+
+(* hence no mixed deviation is profitable either *)
+Lemma is_nash_fn_no_deviation A B x y : is_nash_fn A B x y ->
+  (forall x', prob m x' -> sumQ m (fun i => x' i * row_payoff A y i) <= sumQ m (fun i => x i * row_payoff A y i)) /\
+  (forall y', prob n y' -> sumQ n (fun j => col_payoff B x j * y' j) <= sumQ n (fun j => col_payoff B x j * y j)).
+Proof.
+  intros [Hx [Hy [H0 H1]]]. split.
+  - intros x' [Hp Hs]. set (u := sumQ m (fun i' => x i' * row_payoff A y i')) in *.
+    assert (H : sumQ m (fun i => x' i * row_payoff A y i) <= sumQ m (fun i => x' i * u)).
+    { apply sumQ_le. intros i Hi. specialize (Hp i Hi). specialize (H0 i Hi). nra. }
+    rewrite sumQ_scale_r, Hs in H. lra.
+  - intros y' [Hp Hs]. set (u := sumQ n (fun j' => col_payoff B x j' * y j')) in *.
+    assert (H : sumQ n (fun j => col_payoff B x j * y' j) <= sumQ n (fun j => u * y' j)).
+    { apply sumQ_le. intros j Hj. specialize (Hp j Hj). specialize (H1 j Hj). nra. }
+    rewrite sumQ_scale_l, Hs in H. lra.
+Qed.
+
+(* adding a constant to all payoffs of a player does not change the equilibria *)
+Lemma row_payoff_shift A c y i : sumQ n y == 1 -> row_payoff (fun i j => A i j + c) y i == row_payoff A y i + c.
+Proof.
+  intros Hs. unfold row_payoff.
+  rewrite (sumQ_ext n _ (fun j => A i j * y j + c * y j)) by (intros; ring).
+  rewrite sumQ_add, sumQ_scale_l, Hs. ring.
+Qed.
+Lemma col_payoff_shift B c x j : sumQ m x == 1 -> col_payoff (fun i j => B i j + c) x j == col_payoff B x j + c.
+Proof.
+  intros Hs. unfold col_payoff.
+  rewrite (sumQ_ext m _ (fun i => x i * B i j + x i * c)) by (intros; ring).
+  rewrite sumQ_add, sumQ_scale_r, Hs. ring.
+Qed.
+
+Theorem nash_shift_invariant A B c0 c1 x y :
+  is_nash_fn (fun i j => A i j + c0) (fun i j => B i j + c1) x y <-> is_nash_fn A B x y.
+Proof.
+  unfold is_nash_fn. split; intros [Hx [Hy [H0 H1]]]; (split; [exact Hx|]; split; [exact Hy|]);
+    pose proof (proj2 Hx) as Sx; pose proof (proj2 Hy) as Sy.
+  - split.
+    + intros i Hi. specialize (H0 i Hi). rewrite row_payoff_shift in H0 by assumption.
+      rewrite (sumQ_ext m _ (fun i' => x i' * row_payoff A y i' + x i' * c0)) in H0
+        by (intros; rewrite row_payoff_shift by assumption; ring).
+      rewrite sumQ_add, sumQ_scale_r, Sx in H0. lra.
+    + intros j Hj. specialize (H1 j Hj). rewrite col_payoff_shift in H1 by assumption.
+      rewrite (sumQ_ext n _ (fun j' => col_payoff B x j' * y j' + c1 * y j')) in H1
+        by (intros; rewrite col_payoff_shift by assumption; ring).
+      rewrite sumQ_add, sumQ_scale_l, Sy in H1. lra.
+  - split.
+    + intros i Hi. specialize (H0 i Hi). rewrite row_payoff_shift by assumption.
+      rewrite (sumQ_ext m _ (fun i' => x i' * row_payoff A y i' + x i' * c0))
+        by (intros; rewrite row_payoff_shift by assumption; ring).
+      rewrite sumQ_add, sumQ_scale_r, Sx. lra.
+    + intros j Hj. specialize (H1 j Hj). rewrite col_payoff_shift by assumption.
+      rewrite (sumQ_ext n _ (fun j' => col_payoff B x j' * y j' + c1 * y j'))
+        by (intros; rewrite col_payoff_shift by assumption; ring).
+      rewrite sumQ_add, sumQ_scale_l, Sy. lra.
+Qed.
+
+(* the complementarity conditions reached by Lemke-Howson / vertex enumeration:
+   x, y >= 0 non-zero, B'x <= 1, Ay <= 1 (slacks s, r >= 0), x_i r_i = 0, y_j s_j = 0
+   ==> the normalised pair is a Nash equilibrium *)
+Theorem complementary_is_nash A B x y :
+  (forall i, (i < m)%nat -> 0 <= x i) -> (forall j, (j < n)%nat -> 0 <= y j) ->
+  (forall j, (j < n)%nat -> col_payoff B x j <= 1) -> (forall i, (i < m)%nat -> row_payoff A y i <= 1) ->
+  (forall i, (i < m)%nat -> x i * (1 - row_payoff A y i) == 0) ->
+  (forall j, (j < n)%nat -> y j * (1 - col_payoff B x j) == 0) ->
+  0 < sumQ m x -> 0 < sumQ n y ->
+  is_nash_fn A B (fun i => x i / sumQ m x) (fun j => y j / sumQ n y).
+Proof.
+  intros Hx Hy Hs Hr Cx Cy Px Py. set (X := sumQ m x) in *. set (Y := sumQ n y) in *.
+  assert (HX : ~ X == 0) by lra. assert (HY : ~ Y == 0) by lra.
+  assert (Erow : forall i, row_payoff A (fun j => y j / Y) i == row_payoff A y i / Y).
+  { intros i. unfold row_payoff. rewrite (sumQ_ext n _ (fun j => (A i j * y j) * (/ Y))) by (intros; field; assumption).
+    rewrite sumQ_scale_r. field. assumption. }
+  assert (Ecol : forall j, col_payoff B (fun i => x i / X) j == col_payoff B x j / X).
+  { intros j. unfold col_payoff. rewrite (sumQ_ext m _ (fun i => (x i * B i j) * (/ X))) by (intros; field; assumption).
+    rewrite sumQ_scale_r. field. assumption. }
+  assert (U0 : sumQ m (fun i' => x i' / X * row_payoff A (fun j => y j / Y) i') == / Y).
+  { rewrite (sumQ_ext m _ (fun i' => x i' * (/ (X * Y)))).
+    - rewrite sumQ_scale_r. fold X. field. split; assumption.
+    - intros i Hi. rewrite Erow. specialize (Cx i Hi).
+      assert (E : x i * row_payoff A y i == x i) by lra.
+      transitivity ((x i * row_payoff A y i) * / (X * Y)); [field; split; assumption|]. rewrite E. reflexivity. }
+  assert (U1 : sumQ n (fun j' => col_payoff B (fun i => x i / X) j' * (y j' / Y)) == / X).
+  { rewrite (sumQ_ext n _ (fun j' => y j' * (/ (X * Y)))).
+    - rewrite sumQ_scale_r. fold Y. field. split; assumption.
+    - intros j Hj. rewrite Ecol. specialize (Cy j Hj).
+      assert (E : y j * col_payoff B x j == y j) by lra.
+      transitivity ((y j * col_payoff B x j) * / (X * Y)); [field; split; assumption|]. rewrite E. reflexivity. }
+  assert (IX : 0 < / X) by (apply Qinv_lt_0_compat; assumption).
+  assert (IY : 0 < / Y) by (apply Qinv_lt_0_compat; assumption).
+  unfold is_nash_fn, prob. repeat split.
+  - intros i Hi. specialize (Hx i Hi). unfold Qdiv. nra.
+  - rewrite (sumQ_ext m _ (fun i => x i * / X)) by (intros; reflexivity). rewrite sumQ_scale_r. fold X. field. assumption.
+  - intros j Hj. specialize (Hy j Hj). unfold Qdiv. nra.
+  - rewrite (sumQ_ext n _ (fun j => y j * / Y)) by (intros; reflexivity). rewrite sumQ_scale_r. fold Y. field. assumption.
+  - intros i Hi. rewrite U0, Erow. specialize (Hr i Hi). unfold Qdiv. nra.
+  - intros j Hj. rewrite U1, Ecol. specialize (Hs j Hj). unfold Qdiv. nra.
+Qed.
+End Nash.
+
+(* ------------------------------------------------------------------ vertex enumeration: bit masks *)
+Local Open Scope N_scope.
+Definition bits_of (l : list N) : N := fold_left (fun acc i => N.lor acc (N.shiftl 1 i)) l 0.
+
+Lemma testbit_fold_lor (l : list N) : forall acc k,
+  N.testbit (fold_left (fun acc i => N.lor acc (N.shiftl 1 i)) l acc) k = N.testbit acc k || existsb (N.eqb k) l.
+Proof.
+  induction l as [|x l IH]; intros acc k; cbn [fold_left existsb]; [now rewrite orb_false_r|].
+  rewrite IH, N.lor_spec, N.shiftl_1_l, N.pow2_bits_eqb, orb_assoc. f_equal. f_equal. apply N.eqb_sym.
+Qed.
+
+Lemma testbit_bits_of l k : N.testbit (bits_of l) k = existsb (N.eqb k) l.
+Proof. unfold bits_of. rewrite testbit_fold_lor. now rewrite N.bits_0. Qed.
+
+Lemma existsb_eqb_In k l : existsb (N.eqb k) l = true <-> In k l.
+Proof.
+  rewrite existsb_exists. split.
+  - intros [x [Hx E]]. apply N.eqb_eq in E. now subst.
+  - intros H. exists k. split; [assumption | apply N.eqb_refl].
+Qed.
+
+(* labels as bit masks: the XOR of two masks is the complete mask 2^L - 1 iff the two label sets are
+   disjoint and cover {0, ..., L-1} *)
+Theorem xor_complete_iff_partition (S0 S1 : list N) (L : N) :
+  (forall x, In x (S0 ++ S1) -> x < L) ->
+  (N.lxor (bits_of S0) (bits_of S1) = N.ones L <-> forall l, l < L -> (In l S0 <-> ~ In l S1)).
+Proof.
+  intros Hr. split.
+  - intros E l Hl. assert (Eb : N.testbit (N.lxor (bits_of S0) (bits_of S1)) l = true)
+      by (rewrite E; now apply N.ones_spec_low).
+    rewrite N.lxor_spec, !testbit_bits_of in Eb. rewrite <- !existsb_eqb_In.
+    destruct (existsb (N.eqb l) S0), (existsb (N.eqb l) S1); cbn in Eb; try discriminate; intuition congruence.
+  - intros H. apply N.bits_inj. intros k. rewrite N.lxor_spec, !testbit_bits_of.
+    destruct (N.lt_ge_cases k L) as [Hk|Hk].
+    + rewrite N.ones_spec_low by assumption. specialize (H k Hk). rewrite <- !existsb_eqb_In in H.
+      destruct (existsb (N.eqb k) S0), (existsb (N.eqb k) S1); cbn; intuition congruence.
+    + rewrite N.ones_spec_high by assumption.
+      assert (N0 : existsb (N.eqb k) S0 = false).
+      { destruct (existsb (N.eqb k) S0) eqn:E0; [|reflexivity]. apply existsb_eqb_In in E0.
+        specialize (Hr k (in_or_app _ _ _ (or_introl E0))). lia. }
+      assert (N1 : existsb (N.eqb k) S1 = false).
+      { destruct (existsb (N.eqb k) S1) eqn:E1; [|reflexivity]. apply existsb_eqb_In in E1.
+        specialize (Hr k (in_or_app _ _ _ (or_intror E1))). lia. }
+      now rewrite N0, N1.
+Qed.
